@@ -185,6 +185,14 @@ def run(ctx, prop, focus, n_hist, n_stall, stall_programs=1, n_istall=0):
         mode, p = ("none", 0.0) if rng.random() < 0.5 else ("yield", rng.choice([0.05, 0.2]))
         run_one(ctx, prop, inj, prog, mode, rng.randrange(1 << 30), p=p)
         ctx.count("stop-with-full-bounded-queue-histories")
+    # 1d. a producer blocked on a full bounded queue must not keep the workers from draining it
+    # (C10 quantifies over queue_size; C09 and C11 do not)
+    for i in range(max(2, n_hist // 40) if prop == "C10" else 0):
+        if ctx.time_left() < 5:
+            break
+        prog = poolmon.gen_program_blocked_producer(rng)
+        run_one(ctx, prop, inj, prog, "none", rng.randrange(1 << 30))
+        ctx.count("blocked-producer-histories")
     # 2. stall sweep: each point against small programs.  The points are the (function, line, thread role) triples
     #    that phase 1 actually saw being executed - no function name of the pool module is assumed
     learned = sorted(inj.seen)
